@@ -199,6 +199,38 @@ func init() {
 			}
 			return out
 		}
+		// CONTRADICTORY limits (maxItems below minItems — a typo the tool must not repair on its own): both stay in force, so
+		// every non-null array is rejected, whatever its length; flat and one level down
+		for _, lim := range [][2]int{{3, 2}, {2, 1}, {5, 1}, {4, 3}} {
+			for _, pos := range []Position{PosRequired, PosOptional} {
+				for _, nested := range []bool{false, true} {
+					prop := M{"type": "array", "items": M{"type": "integer"}, "minItems": lim[0], "maxItems": lim[1]}
+					elem := func(k int) any {
+						xs := []any{}
+						for i := 0; i < k; i++ {
+							xs = append(xs, i)
+						}
+						return xs
+					}
+					if nested {
+						prop = M{"type": "array", "items": M{"type": "array", "items": M{"type": "integer"}}, "minItems": lim[0], "maxItems": lim[1]}
+						elem = func(k int) any {
+							xs := []any{}
+							for i := 0; i < k; i++ {
+								xs = append(xs, []any{i, i + 1})
+							}
+							return xs
+						}
+					}
+					schema, mk := fieldProgram(pos, prop)
+					var docs []any
+					for k := 0; k <= 6; k++ {
+						docs = append(docs, mk(elem(k), false))
+					}
+					pcs = append(pcs, baseCase("c07-contradictory-limits", schema, docs, fmt.Sprintf("min=%d max=%d", lim[0], lim[1]), string(pos), fmt.Sprintf("nested=%v", nested)))
+				}
+			}
+		}
 		for _, pos := range []Position{PosRequired, PosOptional, PosNullable, PosDefault} {
 			for depth := 1; depth <= 3; depth++ {
 				combos := 1
